@@ -99,7 +99,7 @@ def designs(tier, rnd):
         keep = [d for d in out if d[0] == "unsupported"]
         rest = [d for d in out if d[0] != "unsupported"]
         out = keep + rnd.sample(rest, min(500, len(rest)))
-    out += [random_hier(rnd, leaves) for _ in range(150 if tier == "quick" else 6000)]
+    out += [random_hier(rnd, leaves) for _ in range(150 if tier == "quick" else 40000)]
     return out
 
 
